@@ -12,9 +12,9 @@
 //
 // Space: for every N in 1..Nmax (quick 6 / thorough 8) a breadth-first exploration over ALL sequences of
 // {vote by validator i (i<N), vote by an outsider} — repeat votes included — until two steps past the
-// release, deduplicated on (real state dump, model state). Thorough adds one epoch change (a fifth..ninth
-// validator joins through registerCandidate/approveCandidate/commitDpos, or validator 0 is black-listed and
-// replaced) inserted at every position of every sequence.
+// release, deduplicated on (real state dump, model state). One epoch change through the real node_manager path
+// (join / replace / shrink, see epochChange) is inserted at every position of every sequence: quick for the
+// vote router and AddSignature at N = 4, 5; thorough for every mechanism and N.
 //
 // Oracle (reference model: a set of voters and a released flag):
 //   - a vote by a non-validator fails and leaves the dump unchanged;
@@ -328,7 +328,8 @@ func main() {
 	r.Finish(map[string]any{
 		"rule":       "release/emit exactly once, in the tx of the first current-validator vote after which |voters ∩ current consensus| >= ceil(2N/3); outsiders never leave a trace",
 		"mechanisms": []string{"vote router", "ripple router", "UpdateFee", "AddSignature", "vote router with blacklisted target (failed release)"},
-		"N_range":    fmt.Sprintf("1..%d", nmax), "epoch_change_modes": map[bool][]string{true: {"join N>=1", "replace N>=4", "shrink N>=5"}, false: {}}[r.Thorough()],
+		"N_range":    fmt.Sprintf("1..%d", nmax), "epoch_change_modes": []string{"join N>=1", "replace N>=4", "shrink N>=5"},
+		"epoch_change_scope": map[bool]string{true: "every mechanism, every N", false: "vote router and AddSignature at N=4,5"}[r.Thorough()],
 		"states":     total.States, "transitions": total.Transitions, "traces_validated_against_impl": total.Transitions, "max_depth": total.MaxDepth,
 	})
 }
@@ -336,7 +337,8 @@ func main() {
 func explore(r *ev.Run, j job, pool *ccm.Worlds, epochBuilt *int64) mc.Stats {
 	m, n, vals := j.m, j.n, j.vals
 	epochModes := []string{}
-	if r.Thorough() {
+	// quick tier: epoch changes only for the vote router and AddSignature at N = 4, 5; thorough: everywhere
+	if r.Thorough() || ((m.name == "vote" || m.name == "sig") && (n == 4 || n == 5)) {
 		epochModes = append(epochModes, "join")
 		if n >= 4 {
 			epochModes = append(epochModes, "replace")
@@ -360,6 +362,17 @@ func explore(r *ev.Run, j job, pool *ccm.Worlds, epochBuilt *int64) mc.Stats {
 			}
 			nx.White = true
 			nx.D = w.Dump()
+			return nx
+		case e == "stale": // fee: a vote for an already closed round (old view) must fail without trace
+			old := s
+			old.View = s.View - 1
+			res := w.Exec(m.vote(old, acct(keys(s.Cur)[0]), uint32(nx.Depth)), 2, 1000)
+			nx.D = w.Dump()
+			r.Eval()
+			r.Class("stale-round-vote")
+			if res.OK || nx.D.String() != s.D.String() {
+				r.Violation("C25/"+m.name+"/vote-for-closed-round-accepted", map[string]any{"mechanism": m.name, "N": n, "view": s.View, "tx_ok": res.OK})
+			}
 			return nx
 		case strings.HasPrefix(e, "epoch-"):
 			mode := strings.TrimPrefix(e, "epoch-")
@@ -488,6 +501,9 @@ func explore(r *ev.Run, j job, pool *ccm.Worlds, epochBuilt *int64) mc.Stats {
 			e = append(e, fmt.Sprintf("v%d", outsiderK))
 			if m.name == "blocked" && !s.White {
 				e = append(e, "white")
+			}
+			if m.rounds && s.View > 0 {
+				e = append(e, "stale")
 			}
 			if !s.Epoch && s.Releases == 0 {
 				for _, em := range epochModes {
